@@ -143,7 +143,8 @@ def run(check):
                   "a consumer references the whole object and each field through (a) a workflow output with inferred schema, (b) an `any` step input, (c) a step "
                   "input field of the field's type; the outcome that produces the pair is driven (success/error/alt/crash/start failure/deploy failure/disabled/"
                   "stop-before-start/foreach success and failure); oracles: no 'bug:' error, returned output unserializes with OutputSchema(), the input logged at "
-                  "the plugin boundary satisfies the step's input schema (independent validator), values equal the reference; plus generated programs of all "
+                  "the plugin boundary satisfies the step's input schema (independent validator), values equal the reference; results of every built-in function over "
+                  "boundary arguments in a workflow output and in a typed step input; plus generated programs of all "
                   "shapes; non-trivial/distinct = (pair, field, consumer) visited with the pair actually produced")
     check.assumptions = ["'conforms' is what the declared schema's Unserialize accepts (the engine's own notion)", "plugins return data that conforms to their schema"]
     gs = []
